@@ -3,6 +3,7 @@ package props
 import (
 	"fmt"
 	"sort"
+	"strings"
 	"testing"
 	"time"
 
@@ -328,7 +329,22 @@ func TestC13(t *testing.T) {
 				mut := "valid"
 				if rapid.IntRange(0, 2).Draw(t, "mutate") == 0 {
 					c.classes["invalid_distributor_payload"] = true
-					switch rapid.IntRange(0, 10).Draw(t, "dmut") {
+					switch rapid.IntRange(0, 13).Draw(t, "dmut") {
+					case 11, 12, 13:
+						// the main account may only be referenced with the account type MAIN - not by its address either
+						alias := DAcc{Type: tBase, Id: ModuleAddr(distrtypes.DistributorMainAccount).String()}
+						if rapid.IntRange(0, 3).Draw(t, "aliasUpper") == 0 {
+							alias.Id = strings.ToUpper(alias.Id)
+						}
+						switch rapid.IntRange(0, 2).Draw(t, "aliasAs") {
+						case 0:
+							n.Subs[0].Primary = alias
+						case 1:
+							n.Subs[0].Sources = append(n.Subs[0].Sources, alias)
+						default:
+							n.Subs[0].Shares = append(n.Subs[0].Shares, DShare{Name: "alias", Share: "0", Dest: alias})
+						}
+						mut = "main_account_as_base_account"
 					case 5:
 						n.Subs[0].Primary = n.Subs[0].Sources[0]
 						mut = "same_account_twice_in_one_subdistributor"
